@@ -34,7 +34,32 @@ pub fn compute_digest(challenge: u32, cookie: &str) -> [u8; 16] {
     result.into()
 }
 
+/// Verification hook (only with `--cfg edp_verif`): challenges queued here are handed out by
+/// `generate_challenge` before it falls back to the clock, so a harness can script them.
+#[cfg(edp_verif)]
+pub mod verif {
+    use std::cell::RefCell;
+    use std::collections::VecDeque;
+
+    thread_local! {
+        static NEXT_CHALLENGES: RefCell<VecDeque<u32>> = const { RefCell::new(VecDeque::new()) };
+    }
+
+    pub fn push_challenge(c: u32) {
+        NEXT_CHALLENGES.with(|q| q.borrow_mut().push_back(c));
+    }
+
+    pub(super) fn pop_challenge() -> Option<u32> {
+        NEXT_CHALLENGES.with(|q| q.borrow_mut().pop_front())
+    }
+}
+
 pub fn generate_challenge() -> u32 {
+    #[cfg(edp_verif)]
+    if let Some(c) = verif::pop_challenge() {
+        return c;
+    }
+
     let nanos = SystemTime::now()
         .duration_since(UNIX_EPOCH)
         .unwrap_or_else(|_| Duration::from_secs(0))
